@@ -7,9 +7,11 @@ import (
 	"fmt"
 	"io"
 	"io/ioutil"
+	"reflect"
 	"strconv"
 	"strings"
 	"testing/iotest"
+	"unsafe"
 
 	hccrypto "github.com/brutella/hc/crypto"
 	"golang.org/x/crypto/chacha20poly1305"
@@ -119,6 +121,27 @@ func mkReader(mode string, data []byte) io.Reader {
 	panic("bad reader mode " + mode)
 }
 
+// setCounters puts a session at given frame counters (the fields are private: the harness writes them through
+// reflection; when the fields do not exist under these names the cases are reported as "skip")
+func setCounters(s hccrypto.Cryptographer, enc, dec uint64) bool {
+	v := reflect.ValueOf(s)
+	if v.Kind() != reflect.Ptr || v.Elem().Kind() != reflect.Struct {
+		return false
+	}
+	v = v.Elem()
+	for _, nv := range []struct {
+		name string
+		val  uint64
+	}{{"encryptCount", enc}, {"decryptCount", dec}} {
+		f := v.FieldByName(nv.name)
+		if !f.IsValid() || f.Kind() != reflect.Uint64 {
+			return false
+		}
+		*(*uint64)(unsafe.Pointer(f.UnsafeAddr())) = nv.val
+	}
+	return true
+}
+
 func newServerSession(k [32]byte) (hccrypto.Cryptographer, error) {
 	return hccrypto.NewSecureSessionFromSharedKey(k)
 }
@@ -163,9 +186,45 @@ func runFrame(id string, toks []string) (res string) {
 		rk := refKey(k[:], encLabel[role])
 		var out []string
 		ctr := uint64(0)
+		lazy := false
+		// mode prefixes: ctr<N>+ start both directions at frame counter N; lazy+ read the results of Encrypt only
+		// after ALL messages were encrypted
+		for {
+			if strings.HasPrefix(mode, "lazy+") {
+				lazy, mode = true, mode[5:]
+			} else if strings.HasPrefix(mode, "ctr") {
+				i := strings.Index(mode, "+")
+				ctr, _ = strconv.ParseUint(mode[3:i], 10, 64)
+				mode = mode[i+1:]
+				if !setCounters(s, ctr, ctr) || !setCounters(p, ctr, ctr) {
+					return "skip"
+				}
+			} else {
+				break
+			}
+		}
+		var pending []io.Reader
+		if lazy {
+			for _, m := range toks[4:] {
+				er, err := s.Encrypt(mkReader(mode, unhex(m)))
+				if err != nil {
+					er = nil
+				}
+				pending = append(pending, er)
+			}
+		}
 		for i, m := range toks[4:] {
 			msg := unhex(m)
-			er, err := s.Encrypt(mkReader(mode, msg))
+			var er io.Reader
+			var err error
+			if lazy {
+				er = pending[i]
+				if er == nil {
+					err = io.ErrUnexpectedEOF
+				}
+			} else {
+				er, err = s.Encrypt(mkReader(mode, msg))
+			}
 			if err != nil {
 				out = append(out, fmt.Sprintf("w%d=err", i))
 				continue
@@ -187,6 +246,37 @@ func runFrame(id string, toks []string) (res string) {
 			}
 		}
 		return strings.Join(out, " ")
+	case "sealc":
+		// sealc <shared> <role> <ctr> <msg>...   reference framer starting at frame counter <ctr>
+		k := sharedKey(toks[1])
+		rk := refKey(k[:], encLabel[toks[2]])
+		ctr, _ := strconv.ParseUint(toks[3], 10, 64)
+		var out []string
+		for i, m := range toks[4:] {
+			msg := unhex(m)
+			out = append(out, fmt.Sprintf("w%d=%s", i, hx(refSealFrames(rk, ctr, msg))))
+			ctr += uint64((len(msg) + 1023) / 1024)
+		}
+		return strings.Join(out, " ")
+	case "decc":
+		// decc <shared> <role> <ctr> <stream>   hc session of <role> whose receive counter is <ctr>
+		k := sharedKey(toks[1])
+		s := newSess(toks[2], k)
+		ctr, _ := strconv.ParseUint(toks[3], 10, 64)
+		if !setCounters(s, ctr, ctr) {
+			return "skip"
+		}
+		r := bytes.NewBuffer(unhex(toks[4]))
+		var released []byte
+		for r.Len() > 0 {
+			dr, err := s.Decrypt(r)
+			if err != nil {
+				return "out=" + hx(released) + " st=err"
+			}
+			d, _ := ioutil.ReadAll(dr)
+			released = append(released, d...)
+		}
+		return "out=" + hx(released) + " st=clean"
 	case "seal":
 		k := sharedKey(toks[1])
 		rk := refKey(k[:], encLabel[toks[2]])
